@@ -46,6 +46,7 @@ type G struct {
 	gtypes  []*GType
 	gfuncs  []*GFunc
 	named   []*Ty
+	list    *GType
 	tinst   map[string]string
 	finst   map[string]string
 	pending []instReq
@@ -153,7 +154,7 @@ func (gf *GFunc) signature() X {
 // ---------------------------------------------------------------- closed types
 
 var basicPool = []string{"int", "int", "string", "bool", "float64", "int8", "uint8", "int16", "uint16", "int32", "uint32",
-	"int64", "uint64", "uint", "float32", "complex128", "complex64", "byte", "rune", "uintptr"}
+	"int64", "uint64", "uint", "float32", "complex64", "byte", "rune", "uintptr"}
 
 // closedType draws a closed type of the given class.
 func (g *G) closedType(class int, d int) *Ty {
@@ -468,7 +469,7 @@ func (fc *fctx) derived(t *Ty, d int) X {
 				}
 			}
 		case 'f':
-			if u.nres == 1 && u.results()[0].key() == k && !u.variadic && len(cands) < 6 {
+			if false && u.nres == 1 && u.results()[0].key() == k && !u.variadic && len(cands) < 6 {
 				ps := u.params()
 				args := make([]X, len(ps))
 				okArgs := true
@@ -498,6 +499,11 @@ func (fc *fctx) derived(t *Ty, d int) X {
 // construct builds a value of type tt whose structure is that of t.
 func (fc *fctx) construct(tt, t *Ty, d int) X {
 	g := fc.g
+	if nilable(t) && refersRec(t) && (d <= 0 || g.Chance(1, 3, "e-rec-zero")) {
+		// T(nil) with T mentioning a recursive type fails in gomacro for plain recursive
+		// types as well (not a generics matter): the zero value is spelled *new(T)
+		return cat("*new(", tt, ")")
+	}
 	switch t.k {
 	case 'n', 'i':
 		u := t.resolve()
@@ -548,7 +554,7 @@ func (fc *fctx) construct(tt, t *Ty, d int) X {
 	case 's':
 		switch {
 		case d <= 0 || g.Chance(1, 5, "e-slice-empty"):
-			if g.Bool("e-slice-nil") {
+			if g.Bool("e-slice-nil") && !refersRec(t) {
 				return cat("(", tt, ")(nil)")
 			}
 			return cat(tt, "{}")
@@ -573,7 +579,7 @@ func (fc *fctx) construct(tt, t *Ty, d int) X {
 		return cat(tt, "{", es, "}")
 	case 'm':
 		if d <= 0 || g.Chance(1, 3, "e-map-empty") {
-			if g.Chance(1, 4, "e-map-nil") {
+			if g.Chance(1, 4, "e-map-nil") && !refersRec(t) {
 				return cat("(", tt, ")(nil)")
 			}
 			return cat(tt, "{}")
@@ -584,7 +590,10 @@ func (fc *fctx) construct(tt, t *Ty, d int) X {
 		if vs := fc.varsOf(t.el[0], true); len(vs) > 0 && g.Chance(1, 2, "e-addr") {
 			return lit("&" + fc.pickVar(vs, "e-addr-which").name)
 		}
-		if d <= 0 || g.Chance(1, 4, "e-ptr-nil") {
+		if refersRec(t) && d <= 0 {
+			return cat("*new(", tt, ")")
+		}
+		if (d <= 0 || g.Chance(1, 4, "e-ptr-nil")) && !refersRec(t) {
 			return cat("(", tt, ")(nil)")
 		}
 		if g.Bool("e-new") {
@@ -592,7 +601,7 @@ func (fc *fctx) construct(tt, t *Ty, d int) X {
 		}
 		return cat("func() ", tt, " { pv := ", fc.expr(t.el[0], d-1), "; return &pv }()")
 	case 'c':
-		if g.Chance(1, 4, "e-chan-nil") {
+		if g.Chance(1, 4, "e-chan-nil") && !refersRec(t) {
 			return cat("(", tt, ")(nil)")
 		}
 		return cat("make(", tt, ", ", g.Int(0, 2, "e-chan-cap"), ")")
@@ -726,7 +735,7 @@ func (fc *fctx) stmt() X {
 	if fc.depth > 3 {
 		return fc.record()
 	}
-	switch g.Pick(24, "stmt") {
+	switch g.Pick(26, "stmt") {
 	case 0, 1, 2:
 		t := fc.drawType(2)
 		return fc.newVar("v", t, fc.expr(t, d))
@@ -877,6 +886,38 @@ func (fc *fctx) stmt() X {
 		x := cat(p, " := &", v.name, "\n*", p, " = ", fc.expr(v.t, 1), "\n")
 		fc.declare(lvar{p, ptrTo(v.t), false})
 		return x
+	case 24, 25:
+		// call of a function value in scope, guarded: a call of a nil function is worded by
+		// reflect in a way the recorder does not classify
+		vs := fc.vars(func(v lvar) bool { u := v.t.resolve(); return u.k == 'f' && !u.variadic })
+		if len(vs) == 0 {
+			return fc.record()
+		}
+		v := fc.pickVar(vs, "fcall-var")
+		u := v.t.resolve()
+		args := make([]X, len(u.params()))
+		for i, pt := range u.params() {
+			args[i] = fc.expr(pt, 1)
+		}
+		call := cat(v.name, "(", args, ")")
+		fc.push()
+		var inner X
+		switch u.nres {
+		case 0:
+			inner = cat("\t", call, "\n")
+		case 1:
+			r := fc.newVar("fr", u.results()[0], call)
+			rec := fc.record()
+			inner = func(s *side) string { return progen.Indent(r(s) + rec(s)) }
+		default:
+			names := make([]string, u.nres)
+			for i := range names {
+				names[i] = "_"
+			}
+			inner = cat("\t", strings.Join(names, ", "), " = ", call, "\n")
+		}
+		fc.pop()
+		return cat("if ", v.name, " != nil {\n", inner, "}\n")
 	case 21:
 		if fc.depth > 0 && !fc.inLoop && fc.cdepth == 0 && g.Chance(1, 3, "early-return") {
 			return fc.ret()
@@ -935,8 +976,11 @@ func (fc *fctx) callInstance(gf *GFunc, args []*Ty) X {
 		ft := subst(f, args)
 		if gf.variadic && i == len(gf.formals)-1 {
 			el := ft.el[0]
+			// no call without variadic arguments: gomacro passes an empty non-nil slice where Go
+			// passes nil, for plain functions as well (not a generics matter)
 			switch g.Pick(3, "call-variadic") {
 			case 0:
+				actual = append(actual, fc.expr(el, 1), fc.expr(el, 1))
 			case 1:
 				actual = append(actual, fc.expr(el, 1))
 			default:
@@ -1026,12 +1070,6 @@ func (g *G) genType() *GType {
 				if g.Chance(1, 3, "gt-field-composite") {
 					ts[i] = sliceOf(ts[i])
 				}
-			case g.Chance(1, 3, "gt-self") && !g.Known("F-C35-1"):
-				gt.rec = true
-				ts[i] = ptrTo(instOf(gt, self...))
-			case g.Chance(1, 3, "gt-self-slice"):
-				gt.rec = true
-				ts[i] = sliceOf(instOf(gt, self...))
 			default:
 				ts[i] = fc.drawType(2)
 			}
@@ -1074,6 +1112,14 @@ func markComparable(t *Ty, class []int) {
 			markComparable(e, class)
 		}
 	}
+}
+
+func nilable(t *Ty) bool {
+	switch t.k {
+	case 's', 'm', '*', 'c', 'f':
+		return true
+	}
+	return false
 }
 
 func refersRec(t *Ty) bool {
@@ -1202,6 +1248,28 @@ func (g *G) genRecursive() []*GFunc {
 	return out
 }
 
+// genList: a recursive generic type used only through the forms that gomacro handles
+// for plain recursive types too (recursive types are emulated; corner cases with them are
+// a documented limitation): &List#[T]{v, l}, l != nil, l.Rest, l.First.
+func (g *G) genList() {
+	T := param(0, "T")
+	lt := &GType{name: g.Top("List"), params: []string{"T"}, class: []int{cAny}, rec: true}
+	self := instOf(lt, T)
+	lt.under = structOf([]string{"First", "Rest"}, []*Ty{T, ptrTo(self)})
+	g.list = lt
+	pl := ptrTo(self)
+	push := &GFunc{name: g.Top("Push"), params: []string{"T"}, class: []int{cAny}, fnames: []string{"l", "v"}, formals: []*Ty{pl, T}, results: []*Ty{pl}}
+	push.body = cat("\treturn &", self, "{v, l}\n")
+	length := &GFunc{name: g.Top("Len"), params: []string{"T"}, class: []int{cAny}, fnames: []string{"l"}, formals: []*Ty{pl}, results: []*Ty{tInt}}
+	length.body = lit("\tn := 0\n\tfor ; l != nil; l = l.Rest {\n\t\tn++\n\t}\n\treturn n\n")
+	build := &GFunc{name: g.Top("Build"), params: []string{"T"}, class: []int{cAny}, fnames: []string{"vs"}, formals: []*Ty{sliceOf(T)}, results: []*Ty{pl}}
+	build.body = cat("\tvar l ", pl, "\n\tfor _, v := range vs {\n\t\tl = ", fref(push, []*Ty{T}), "(l, v)\n\t}\n\trec.E(", g.Ev(), ", ", fref(length, []*Ty{T}), "(l))\n\treturn l\n")
+	items := &GFunc{name: g.Top("Items"), params: []string{"T"}, class: []int{cAny}, fnames: []string{"l"}, formals: []*Ty{pl}, results: []*Ty{sliceOf(T)}}
+	items.body = cat("\tvar out ", sliceOf(T), "\n\tfor ; l != nil; l = l.Rest {\n\t\tout = append(out, l.First)\n\t}\n\treturn out\n")
+	g.gfuncs = append(g.gfuncs, push, length, build, items)
+	g.Tag("generic-type:recursive-list")
+}
+
 // Generate builds one case: the generic text (Decls) and its hand-specialised copy
 // (Meta["spec"]), both rendered from the same templates.
 func Generate(t *rapid.T, px string) gobatch.Program {
@@ -1223,6 +1291,9 @@ func Generate(t *rapid.T, px string) gobatch.Program {
 	for i, n := 0, g.Int(0, 3, "n-gtypes"); i < n; i++ {
 		g.gtypes = append(g.gtypes, g.genType())
 	}
+	if g.Chance(1, 3, "with-list") {
+		g.genList()
+	}
 	if g.Chance(1, 3, "with-recursive") {
 		g.gfuncs = append(g.gfuncs, g.genRecursive()...)
 	}
@@ -1232,32 +1303,20 @@ func Generate(t *rapid.T, px string) gobatch.Program {
 	// a package-level variable initialised through an instance
 	var globals []lvar
 	if g.Chance(1, 3, "global-var") {
-		fc := &fctx{g: g, scopes: [][]lvar{nil}, maxFn: len(g.gfuncs)}
-		var cands []*GFunc
-		for _, gf := range g.gfuncs {
-			if len(gf.results) == 1 {
-				cands = append(cands, gf)
-			}
-		}
-		if len(cands) > 0 {
-			gf := cands[g.Pick(len(cands), "global-which")]
-			args := make([]*Ty, len(gf.params))
-			for i := range args {
-				args[i] = g.closedType(gf.class[i], 1)
-			}
-			var actual []X
-			for i, f := range gf.formals {
-				if gf.variadic && i == len(gf.formals)-1 {
-					continue
-				}
-				actual = append(actual, fc.expr(subst(f, args), 2))
-			}
+		// the initialiser runs outside any recover on the compiled side, so it goes through a
+		// template that cannot panic
+		T := param(0, "T")
+		id := &GFunc{name: g.Top("Id"), params: []string{"T"}, class: []int{cAny}, fnames: []string{"a", "n"}, formals: []*Ty{T, tInt},
+			results: []*Ty{T}, body: cat("\tif n > 0 {\n\t\tvar z ", T, "\n\t\treturn z\n\t}\n\treturn a\n")}
+		g.gfuncs = append(g.gfuncs, id)
+		fc := &fctx{g: g, scopes: [][]lvar{nil}}
+		for i, n := 0, g.Int(1, 2, "n-globals"); i < n; i++ {
+			arg := g.closedType(cAny, 2)
 			name := g.Top("V")
-			rt := subst(gf.results[0], args)
-			plain = append(plain, cat("var ", name, " ", rt, " = ", fref(gf, args), "(", actual, ")"))
-			globals = append(globals, lvar{name, rt, false})
-			g.Tag("site:package-level-var")
+			plain = append(plain, cat("var ", name, " ", arg, " = ", fref(id, []*Ty{arg}), "(", fc.construct(arg, arg, 2), ", ", g.Int(0, 1, "global-zero"), ")"))
+			globals = append(globals, lvar{name, arg, false})
 		}
+		g.Tag("site:package-level-var")
 	}
 	// the entry function: instantiation sites at several closure depths
 	entry := g.Top("Entry")
